@@ -159,56 +159,43 @@ func runC16(c *Ctx) {
 		}
 	}
 
-	// builders in package sm
+	// answers built in package sm: every function with a request parameter (*diam.Message) that writes a
+	// message object it built itself (through Answer, NewMessage or a helper)
 	nb := 0
 	for _, f := range c.P.LibraryFuncs() {
 		if pkgOf(f).Path() != pkgSM {
 			continue
 		}
-		for _, ci := range flow.CallInstrs(f) {
-			call, ok := ci.(*ssa.Call)
-			if !ok || flow.StaticCallee(call) != ans {
+		var reqP *ssa.Parameter
+		for _, p := range f.Params {
+			if isMsgPtr(p.Type()) {
+				reqP = p
+			}
+		}
+		if reqP == nil {
+			continue
+		}
+		for _, cj := range flow.CallInstrs(f) {
+			if !isMessageWrite(cj) {
 				continue
 			}
-			// the answer object in f: the value that receives WriteTo
-			var write ssa.CallInstruction
-			var obj ssa.Value
-			for _, cj := range flow.CallInstrs(f) {
-				o := flow.CalleeObj(cj)
-				if o == nil || flow.RecvTypeName(o.Type().(*types.Signature)) != "Message" || !strings.HasPrefix(o.Name(), "WriteTo") {
-					continue
-				}
-				recv := flow.Peel(cj.Common().Args[0])
-				if derivesFromAnswer(recv, call) {
-					write, obj = cj, recv
-				}
-			}
-			if write == nil {
-				continue
+			obj := flow.Peel(cj.Common().Args[0])
+			if _, isParam := obj.(*ssa.Parameter); isParam {
+				continue // forwarding a message it was given
 			}
 			nb++
 			key := fname(f) + ":answer-written"
 			se := c.newSymEval(f, c.Depth)
-			st, ok := se.objectState(obj, write, c.Depth)
+			st, ok := se.objectState(obj, cj, c.Depth)
 			if !ok {
-				r.Undecided("R1", key, c.pos(write), "cannot summarise the answer object written here")
+				r.Undecided("R1", key, c.pos(cj), "cannot summarise the answer object written here (not built by Answer / NewMessage / a module helper)")
 				continue
 			}
-			// the request: receiver argument of Answer
-			req := se.eval(call.Call.Args[0])
-			reqLeaf := ""
-			if req.Op == "param" {
-				reqLeaf = req.Leaf
-			}
-			if reqLeaf == "" {
-				r.Undecided("R1", key, c.pos(call), "the request answered here is not a parameter of the handler: "+req.String())
-				continue
-			}
-			c.checkMirror(st, reqLeaf, key, c.pos(write), true)
+			c.checkMirror(st, fmt.Sprint(paramIndex(f, reqP)), key, c.pos(cj), true)
 		}
 	}
 	if nb == 0 {
-		r.Undecided("R1", "role:sm-answer-builders", "-", "no function in package sm builds an answer with Answer() and writes it")
+		r.Undecided("R1", "role:sm-answer-builders", "-", "no function in package sm writes an answer it built from a request")
 	}
 
 	// ---- R2 ----
